@@ -112,36 +112,602 @@ theorem split_render (d : CDesc) (h : d.sepFree = true) :
   · simp only [CDesc.parts, List.all_cons, Bool.and_eq_true]
     exact ⟨action_noColon _, by simpa [CDesc.sepFree, CDesc.fields] using h⟩
 
-/-- **Custom syntax, round trip.**  For every descriptor whose fields contain no `:` and whose last
-field does not end in `#feedbackplay`, the parser returns exactly action, path, credentials, query. -/
-theorem custom_roundtrip (d : CDesc) (hsep : d.sepFree = true)
-    (hfb : kFeedback.isSuffixOf d.last = false) :
-    unmarshal d.render = .ok d.sid := by
+/-- the descriptor the parser sees: one `#feedbackplay` suffix is removed from the last field -/
+def CDesc.trimLast (d : CDesc) : CDesc :=
+  match d.query, d.creds with
+  | some q, _ => { d with query := some (trimFb q) }
+  | none, some (u, w) => { d with creds := some (u, trimFb w) }
+  | none, none => { d with path := trimFb d.path }
+
+/-- **Custom syntax, exact result.**  For every descriptor whose fields contain no `:` the parser
+returns the descriptor with one trailing `#feedbackplay` removed from its last field. -/
+theorem custom_parse (d : CDesc) (hsep : d.sepFree = true) :
+    unmarshal d.render = .ok d.trimLast.sid := by
   have hsplit := split_render d hsep
   have hstd : kStd.isPrefixOf d.render = false := by rw [render_eq]; exact action_ne_std _ _
   simp only [unmarshal, hstd, hsplit, CDesc.parts]
   obtain ⟨pub, path, creds, query⟩ := d
   cases creds with
   | none =>
-    cases query with
-    | none =>
-      simp only [CDesc.last, CDesc.fields, CDesc.tailParts, List.append_nil, List.getLastD_cons,
-        List.getLastD_nil] at hfb
-      simp [CDesc.tailParts, customParts, trimFb, trimSuffix_id _ _ hfb, mkCustom_action, CDesc.sid]
-    | some q =>
-      simp only [CDesc.last, CDesc.fields, CDesc.tailParts, List.nil_append, List.getLastD_cons,
-        List.getLastD_nil] at hfb
-      simp [CDesc.tailParts, customParts, trimFb, trimSuffix_id _ _ hfb, mkCustom_action, CDesc.sid]
+    cases query <;>
+      simp [CDesc.tailParts, customParts, mkCustom_action, CDesc.sid, CDesc.trimLast]
   | some up =>
     obtain ⟨u, w⟩ := up
-    cases query with
-    | none =>
-      simp only [CDesc.last, CDesc.fields, CDesc.tailParts, List.append_nil, List.getLastD_cons,
-        List.getLastD_nil] at hfb
-      simp [CDesc.tailParts, customParts, trimFb, trimSuffix_id _ _ hfb, mkCustom_action, CDesc.sid]
-    | some q =>
-      simp only [CDesc.last, CDesc.fields, CDesc.tailParts, List.cons_append, List.nil_append,
+    cases query <;>
+      simp [CDesc.tailParts, customParts, mkCustom_action, CDesc.sid, CDesc.trimLast]
+
+theorem trimLast_id (d : CDesc) (hfb : kFeedback.isSuffixOf d.last = false) : d.trimLast = d := by
+  obtain ⟨pub, path, creds, query⟩ := d
+  cases creds with
+  | none =>
+    cases query <;>
+      (simp only [CDesc.last, CDesc.fields, CDesc.tailParts, List.append_nil, List.nil_append,
         List.getLastD_cons, List.getLastD_nil] at hfb
-      simp [CDesc.tailParts, customParts, trimFb, trimSuffix_id _ _ hfb, mkCustom_action, CDesc.sid]
+       simp [CDesc.trimLast, trimFb, trimSuffix_id _ _ hfb])
+  | some up =>
+    obtain ⟨u, w⟩ := up
+    cases query <;>
+      (simp only [CDesc.last, CDesc.fields, CDesc.tailParts, List.append_nil, List.cons_append,
+        List.nil_append, List.getLastD_cons, List.getLastD_nil] at hfb
+       simp [CDesc.trimLast, trimFb, trimSuffix_id _ _ hfb])
+
+/-- **Custom syntax, round trip.**  For every descriptor whose fields contain no `:` and whose last
+field does not end in `#feedbackplay`, the parser returns exactly action, path, credentials, query. -/
+theorem custom_roundtrip (d : CDesc) (hsep : d.sepFree = true)
+    (hfb : kFeedback.isSuffixOf d.last = false) :
+    unmarshal d.render = .ok d.sid := by
+  rw [custom_parse d hsep, trimLast_id d hfb]
+
+theorem trimFb_length (s : Bytes) (h : kFeedback.isSuffixOf s = true) :
+    (trimFb s).length + 13 = s.length := by
+  have hl : 13 ≤ s.length := by
+    have := (List.isSuffixOf_iff_suffix.mp h).length_le
+    simpa [kFeedback] using this
+  unfold trimFb trimSuffix
+  rw [if_pos h, List.length_take]
+  simp only [kFeedback, List.length_cons, List.length_nil]
+  omega
+
+/-- the `#feedbackplay` side condition is exact: a last field that ends in it is NOT read back -/
+theorem custom_roundtrip_iff (d : CDesc) (hsep : d.sepFree = true) :
+    unmarshal d.render = .ok d.sid ↔ kFeedback.isSuffixOf d.last = false := by
+  constructor
+  · intro h
+    cases hfb : kFeedback.isSuffixOf d.last with
+    | false => rfl
+    | true =>
+      exfalso
+      rw [custom_parse d hsep] at h
+      have h' : d.trimLast.sid = d.sid := by injection h
+      obtain ⟨pub, path, creds, query⟩ := d
+      cases creds with
+      | none =>
+        cases query with
+        | none =>
+          simp only [CDesc.last, CDesc.fields, CDesc.tailParts, List.append_nil,
+            List.getLastD_cons, List.getLastD_nil] at hfb
+          have := trimFb_length _ hfb
+          simp only [CDesc.trimLast, CDesc.sid, SID.mk.injEq] at h'
+          rw [h'.2.1] at this; omega
+        | some q =>
+          simp only [CDesc.last, CDesc.fields, CDesc.tailParts, List.nil_append,
+            List.getLastD_cons, List.getLastD_nil] at hfb
+          have := trimFb_length _ hfb
+          simp only [CDesc.trimLast, CDesc.sid, SID.mk.injEq, Option.getD_some] at h'
+          rw [h'.2.2.1] at this; omega
+      | some up =>
+        obtain ⟨u, w⟩ := up
+        cases query with
+        | none =>
+          simp only [CDesc.last, CDesc.fields, CDesc.tailParts, List.append_nil,
+            List.getLastD_cons, List.getLastD_nil] at hfb
+          have := trimFb_length _ hfb
+          simp only [CDesc.trimLast, CDesc.sid, SID.mk.injEq, Option.map_some, Option.getD_some] at h'
+          rw [h'.2.2.2.2] at this; omega
+        | some q =>
+          simp only [CDesc.last, CDesc.fields, CDesc.tailParts, List.cons_append, List.nil_append,
+            List.getLastD_cons, List.getLastD_nil] at hfb
+          have := trimFb_length _ hfb
+          simp only [CDesc.trimLast, CDesc.sid, SID.mk.injEq, Option.getD_some] at h'
+          rw [h'.2.2.1] at this; omega
+  · exact custom_roundtrip d hsep
+
+/-- a descriptor with `#feedbackplay` appended to its last field -/
+def CDesc.withFb (d : CDesc) : CDesc :=
+  match d.query, d.creds with
+  | some q, _ => { d with query := some (q ++ kFeedback) }
+  | none, some (u, w) => { d with creds := some (u, w ++ kFeedback) }
+  | none, none => { d with path := d.path ++ kFeedback }
+
+theorem withFb_render (d : CDesc) : d.withFb.render = d.render ++ kFeedback := by
+  obtain ⟨pub, path, creds, query⟩ := d
+  cases creds with
+  | none =>
+    cases query <;> simp [CDesc.withFb, CDesc.render, CDesc.parts, CDesc.tailParts, joinB]
+  | some up =>
+    obtain ⟨u, w⟩ := up
+    cases query <;> simp [CDesc.withFb, CDesc.render, CDesc.parts, CDesc.tailParts, joinB]
+
+/-- **`#feedbackplay` suffix rule** (issue 5414): a stream id followed by `#feedbackplay` yields the
+same action, path, credentials and query as the stream id alone — for EVERY `:`-free descriptor. -/
+theorem custom_feedback_suffix (d : CDesc) (hsep : d.sepFree = true) :
+    unmarshal (d.render ++ kFeedback) = .ok d.sid := by
+  have hsep' : d.withFb.sepFree = true := by
+    have hk : noByte 58 kFeedback = true := by decide
+    obtain ⟨pub, path, creds, query⟩ := d
+    cases creds with
+    | none =>
+      cases query <;>
+        simp_all [CDesc.withFb, CDesc.sepFree, CDesc.fields, CDesc.tailParts, noByte_append]
+    | some up =>
+      obtain ⟨u, w⟩ := up
+      cases query <;>
+        simp_all [CDesc.withFb, CDesc.sepFree, CDesc.fields, CDesc.tailParts, noByte_append]
+  rw [← withFb_render, custom_parse _ hsep']
+  congr 1
+  obtain ⟨pub, path, creds, query⟩ := d
+  cases creds with
+  | none =>
+    cases query <;> simp [CDesc.withFb, CDesc.trimLast, CDesc.sid, trimFb, trimSuffix_append]
+  | some up =>
+    obtain ⟨u, w⟩ := up
+    cases query <;> simp [CDesc.withFb, CDesc.trimLast, CDesc.sid, trimFb, trimSuffix_append]
+
+/-- error cases of the custom syntax: fewer than 2 or more than 5 `:`-separated parts, or an action
+other than `read` / `publish` — and nothing else — is rejected -/
+theorem custom_ok_iff (raw : Bytes) (hstd : kStd.isPrefixOf raw = false) :
+    (∃ s, unmarshal raw = .ok s) ↔
+      2 ≤ (splitB 58 raw).length ∧ (splitB 58 raw).length ≤ 5 ∧
+        ((splitB 58 raw).head? = some kRead ∨ (splitB 58 raw).head? = some kPublish) := by
+  simp only [unmarshal, hstd, Bool.false_eq_true, if_false]
+  generalize splitB 58 raw = parts
+  have mk : ∀ a p q u w, (∃ s, mkCustom a p q u w = .ok s) ↔ (a = kRead ∨ a = kPublish) := by
+    intro a p q u w
+    unfold mkCustom
+    by_cases h1 : a = kRead
+    · simp [h1]
+    · by_cases h2 : a = kPublish
+      · have : kPublish ≠ kRead := by decide
+        simp [h2, this]
+      · simp [h1, h2]
+  match parts with
+  | [] => simp [customParts]
+  | [_] => simp [customParts]
+  | [a, p] => simp [customParts, mk]
+  | [a, p, q] => simp [customParts, mk]
+  | [a, p, u, w] => simp [customParts, mk]
+  | [a, p, u, w, q] => simp [customParts, mk]
+  | _ :: _ :: _ :: _ :: _ :: _ :: _ => simp [customParts]
+
+/-- every rejection of the custom syntax is the format error -/
+theorem custom_err_format (raw : Bytes) (hstd : kStd.isPrefixOf raw = false) (e : Err)
+    (h : unmarshal raw = .err e) : e = .format := by
+  simp only [unmarshal, hstd, Bool.false_eq_true, if_false] at h
+  have mk : ∀ a p q u w, mkCustom a p q u w = .err e → e = .format := by
+    intro a p q u w
+    unfold mkCustom
+    split
+    · intro h; cases h
+    · split
+      · intro h; cases h
+      · intro h; injection h with h; exact h.symm
+  revert h
+  generalize splitB 58 raw = parts
+  intro h
+  unfold customParts at h
+  split at h
+  · exact mk _ _ _ _ _ h
+  · exact mk _ _ _ _ _ h
+  · exact mk _ _ _ _ _ h
+  · exact mk _ _ _ _ _ h
+  · injection h with h; exact h.symm
+
+/-! ### SRT stream id, standard syntax `#!::key=value,…` -/
+
+theorem stdItem_render (s : SID) (k v : Bytes) (hk : noByte 61 k = true) :
+    stdItem s (renderKV (k, v)) = applyKV s k v := by
+  simp [stdItem, renderKV, cutB_append 61 k v hk]
+
+/-- an item without `=` is rejected -/
+theorem stdItem_noEq (s : SID) (kv : Bytes) (h : noByte 61 kv = true) :
+    stdItem s kv = .err .invalidValue := by
+  simp [stdItem, cutB_none 61 kv h]
+
+theorem stdFold_render (s : SID) (kvs : List (Bytes × Bytes)) (h : stdSepFree kvs = true) :
+    stdFold s (kvs.map renderKV) = applyAll s kvs := by
+  induction kvs generalizing s with
+  | nil => rfl
+  | cons kv rest ih =>
+    simp only [stdSepFree, List.all_cons, Bool.and_eq_true] at h
+    obtain ⟨k, v⟩ := kv
+    simp only [List.map_cons, stdFold, applyAll, stdItem_render s k v h.1.1.1]
+    cases applyKV s k v with
+    | ok s' => exact ih s' (by simpa [stdSepFree] using h.2)
+    | err e => rfl
+
+/-- **Standard syntax, exact result.**  For every non-empty key/value list whose keys avoid `=` and
+`,` and whose values avoid `,` (values may contain `=`), the parser applies exactly the listed items:
+`u` user, `r` path, `s` password, `m` mode (`request`/`publish`, anything else is an error), every
+other key ignored, later items override earlier ones, no query. -/
+theorem std_parse (kvs : List (Bytes × Bytes)) (hne : kvs ≠ []) (h : stdSepFree kvs = true) :
+    unmarshal (renderStd kvs) = applyAll {} kvs := by
+  have hp : kStd.isPrefixOf (kStd ++ joinB 44 (kvs.map renderKV)) = true := by
+    simp [kStd, List.isPrefixOf]
+  have hd : (kStd ++ joinB 44 (kvs.map renderKV)).drop 4 = joinB 44 (kvs.map renderKV) := by
+    simp [kStd]
+  have hall : (kvs.map renderKV).all (noByte 44) = true := by
+    simp only [List.all_map, List.all_eq_true]
+    intro kv hkv
+    have := List.all_eq_true.mp h kv hkv
+    simp only [Bool.and_eq_true] at this
+    simp only [Function.comp, renderKV]
+    exact (noByte_append _ _ _).mpr ⟨this.1.2, (noByte_cons _ _ _).mpr ⟨by decide, this.2⟩⟩
+  simp only [unmarshal, renderStd, hp, hd, if_true]
+  rw [splitB_joinB 44 _ (by simpa using hne) hall]
+  exact stdFold_render {} kvs h
+
+/-- **Standard syntax, round trip** of the documented descriptor `#!::m=…,r=…,u=…,s=…`: exactly the
+action, path and credentials come back whenever path, user and password contain no `,`
+(the standard syntax carries no query). -/
+theorem std_roundtrip (s : SID) (hq : s.query = [])
+    (hp : noByte 44 s.path = true) (hu : noByte 44 s.user = true) (hw : noByte 44 s.pass = true) :
+    unmarshal (renderStd (stdDesc s)) = .ok s := by
+  have hm : noByte 44 (if s.publish then kPublish else kRequest) = true := by
+    cases s.publish <;> decide
+  rw [std_parse _ (by simp [stdDesc])
+    (by simp [stdSepFree, stdDesc, hp, hu, hw, hm]; decide)]
+  obtain ⟨pub, path, query, user, pass⟩ := s
+  simp only at hq
+  subst hq
+  cases pub <;> simp [stdDesc, applyAll, applyKV, kRequest, kPublish]
+
+/-- keys other than `u`, `r`, `s`, `m` (e.g. `h`, `t`, vendor keys — issue 3701) change nothing -/
+theorem applyKV_ignored (s : SID) (k v : Bytes)
+    (h : k ≠ [117] ∧ k ≠ [114] ∧ k ≠ [115] ∧ k ≠ [109]) : applyKV s k v = .ok s := by
+  simp [applyKV, h.1, h.2.1, h.2.2.1, h.2.2.2]
+
+/-- a mode other than `request` / `publish` is rejected -/
+theorem applyKV_badMode (s : SID) (v : Bytes) (h : v ≠ kRequest ∧ v ≠ kPublish) :
+    applyKV s [109] v = .err .badMode := by
+  simp [applyKV, h.1, h.2]
+
+/-! non-vacuity and necessity of the side conditions (tests, not theorems) -/
+
+-- `read:mypath:myuser:mypass:myquery`
+example : unmarshal (asc ['r','e','a','d',':','p',':','u',':','w',':','q']) =
+    .ok { publish := false, path := asc ['p'], query := asc ['q'], user := asc ['u'], pass := asc ['w'] } := by
+  decide
+-- a `:` inside the password shifts the fields (side condition `sepFree` is needed)
+example : unmarshal (CDesc.render ⟨true, asc ['p'], some (asc ['u'], asc ['a',':','b']), none⟩) =
+    .ok { publish := true, path := asc ['p'], query := asc ['b'], user := asc ['u'], pass := asc ['a'] } := by
+  decide
+-- `#!::` alone is an error (strings.Split("", ",") = [""])
+example : unmarshal kStd = .err .invalidValue := by decide
+-- a `,` inside a value cuts it and makes the remainder an item of its own
+example : unmarshal (renderStd [([114], asc ['a',',','b'])]) = .err .invalidValue := by decide
+example : (CDesc.mk true (asc ['p']) (some (asc ['u'], asc ['w'])) (some (asc ['q']))).sepFree = true := by
+  decide
+
+/-! ### WHIP/WHEP Link header -/
+
+/-- **quote/escape lemma**: reading a quoted credential stops at the closing quote that was written,
+for EVERY byte string (including ones made of quotes and backslashes) and every continuation. -/
+theorem readQ_quote (s acc rest : Bytes) :
+    readQ false acc (quote s ++ 34 :: rest) = some (acc ++ s, rest) := by
+  induction s generalizing acc with
+  | nil => simp [quote, readQ]
+  | cons c s ih =>
+    by_cases h1 : c = 92
+    · subst h1; simp [quote, readQ, ih]
+    · by_cases h2 : c = 34
+      · subst h2; simp [quote, readQ, ih]
+      · simp [quote, readQ, h1, h2, ih]
+
+theorem readQuoted_quote (s rest : Bytes) :
+    readQuoted (34 :: (quote s ++ 34 :: rest)) = some (s, rest) := by
+  simp [readQuoted, readQ_quote]
+
+theorem cutPrefix_append (p r : Bytes) : cutPrefix p (p ++ r) = some r := by
+  have : p.isPrefixOf (p ++ r) = true := by
+    rw [List.isPrefixOf_iff_prefix]; exact List.prefix_append p r
+  simp [cutPrefix, this]
+
+theorem tail_prefix_short (sepT u r : Bytes) (c0 : UInt8) (hn : noByte c0 sepT = true)
+    (h : sepT.isPrefixOf (u ++ c0 :: r) = true) : sepT.isPrefixOf u = true := by
+  induction sepT generalizing u with
+  | nil => simp
+  | cons x xs ih =>
+    obtain ⟨hx, hxs⟩ := (noByte_cons _ _ _).mp hn
+    cases u with
+    | nil => simp [List.isPrefixOf, hx] at h
+    | cons y u =>
+      simp only [List.cons_append, List.isPrefixOf, Bool.and_eq_true] at h ⊢
+      exact ⟨h.1, ih u hxs h.2⟩
+
+theorem kRelSep_eq : kRelSep = 62 :: kRelSepTail := by decide
+
+/-- `strings.Cut(url + ">; rel=\"ice-server\"" + tail, ">; rel=\"ice-server\"")` cuts at the
+separator that was written iff (see `cutS_infix`) the URL does not contain the separator itself -/
+theorem cutS_relSep (url t : Bytes) (h : hasInfix kRelSep url = false) :
+    cutS kRelSep (url ++ kRelSep ++ t) = some (url, t) := by
+  induction url with
+  | nil =>
+    have hp : kRelSep.isPrefixOf (kRelSep ++ t) = true := by
+      rw [List.isPrefixOf_iff_prefix]; exact List.prefix_append _ _
+    have hd : (kRelSep ++ t).drop kRelSep.length = t := List.drop_left
+    rw [List.nil_append]
+    rw [kRelSep_eq] at hp hd ⊢
+    simp only [List.cons_append] at hp hd ⊢
+    simp only [cutS, hp, if_true, hd]
+  | cons y u ih =>
+    simp only [hasInfix, Bool.or_eq_false_iff] at h
+    have hnp : kRelSep.isPrefixOf (y :: u ++ kRelSep ++ t) = false := by
+      cases hp : kRelSep.isPrefixOf (y :: u ++ kRelSep ++ t) with
+      | false => rfl
+      | true =>
+        exfalso
+        rw [kRelSep_eq] at hp h
+        simp only [List.cons_append, List.append_assoc, List.isPrefixOf, Bool.and_eq_true] at hp
+        have := tail_prefix_short kRelSepTail u (kRelSepTail ++ t) 62 (by decide) hp.2
+        have h1 := h.1
+        simp only [List.isPrefixOf, Bool.and_eq_false_iff] at h1
+        rcases h1 with h1 | h1
+        · rw [hp.1] at h1; cases h1
+        · rw [this] at h1; cases h1
+    simp only [List.cons_append] at hnp ⊢
+    simp only [cutS, hnp, Bool.false_eq_true, if_false]
+    have := ih h.2
+    simp only [List.append_assoc] at this ⊢
+    rw [this]
+
+theorem cutS_relSep_r (url t : Bytes) (h : hasInfix kRelSep url = false) :
+    cutS kRelSep (url ++ (kRelSep ++ t)) = some (url, t) := by
+  rw [← List.append_assoc]; exact cutS_relSep url t h
+
+theorem cutPrefix_cons (c : UInt8) (r : Bytes) : cutPrefix [c] (c :: r) = some r := by
+  simpa using cutPrefix_append [c] r
+
+theorem cutPrefix_self (p : Bytes) : cutPrefix p p = some [] := by
+  simpa using cutPrefix_append p []
+
+theorem readCreds_rendered (url user c : Bytes) (hu : user ≠ []) :
+    readCreds url (kUsername ++ (34 :: (quote user ++ 34 :: (kCredential ++ (34 :: (quote c ++ 34 :: kCredType))))))
+      = some { url := url, user := user, cred := some c } := by
+  simp only [readCreds, cutPrefix_append, readQuoted_quote, hu, if_false, cutPrefix_self, if_true]
+
+/-- one entry: what `LinkHeaderMarshal` writes, `LinkHeaderUnmarshal` reads back -/
+theorem unmarshal1_marshal1 (s : IceIn) (h : s.wf = true) :
+    ∃ hd, marshal1 s = some hd ∧ unmarshal1 hd = some s.back := by
+  obtain ⟨urls, user, cred⟩ := s
+  cases urls with
+  | nil => simp [IceIn.wf] at h
+  | cons url urls =>
+    simp only [IceIn.wf, Bool.and_eq_true, Bool.not_eq_true', Bool.or_eq_true,
+      decide_eq_true_eq] at h
+    by_cases hu : user = []
+    · subst hu
+      refine ⟨60 :: (url ++ (kRelSep ++ [])), by simp [marshal1], ?_⟩
+      simp only [unmarshal1, cutPrefix_cons, cutS_relSep_r url [] h.1, if_true, IceIn.back,
+        List.headD_cons]
+    · rcases h.2 with h2 | h2
+      · exact absurd h2 hu
+      · cases cred with
+        | none => simp at h2
+        | some c =>
+          refine ⟨60 :: (url ++ (kRelSep ++ (kUsername ++ (34 :: (quote user ++ 34 :: (kCredential ++
+            (34 :: (quote c ++ 34 :: kCredType)))))))), by simp [marshal1, hu], ?_⟩
+          have hne : kUsername ++ (34 :: (quote user ++ 34 :: (kCredential ++
+            (34 :: (quote c ++ 34 :: kCredType))))) ≠ [] := by simp [kUsername]
+          simp only [unmarshal1, cutPrefix_cons, cutS_relSep_r url _ h.1, hne, if_false,
+            readCreds_rendered url user c hu, IceIn.back, hu, List.headD_cons]
+
+/-- **Link header round trip.**  Whatever `LinkHeaderMarshal` writes for a list of ICE servers,
+`LinkHeaderUnmarshal` reads back entry by entry: same URL, and — for ALL username / credential byte
+strings — the same username and credential.  Only side conditions: the URL does not contain the
+literal `>; rel="ice-server"`; an entry with an EMPTY username is written without credentials (and so
+comes back without). -/
+theorem unmarshal_marshal (l : List IceIn) (h : ∀ s ∈ l, s.wf = true) :
+    ∃ hs, marshal l = some hs ∧ unmarshalL hs = some (l.map IceIn.back) := by
+  induction l with
+  | nil => exact ⟨[], rfl, rfl⟩
+  | cons s rest ih =>
+    obtain ⟨hd, h1, h2⟩ := unmarshal1_marshal1 s (h s List.mem_cons_self)
+    obtain ⟨tl, h3, h4⟩ := ih (fun x hx => h x (List.mem_cons_of_mem _ hx))
+    exact ⟨hd :: tl, by simp [marshal, h1, h3], by simp [unmarshalL, h2, h4]⟩
+
+/-- **Credentials are read back unchanged for any string** (the property's wording): any non-empty
+username and any credential, whatever bytes they contain. -/
+theorem credentials_roundtrip (url user cred : Bytes) (more : List Bytes)
+    (hurl : hasInfix kRelSep url = false) (hu : user ≠ []) :
+    ∃ hd, marshal1 ⟨url :: more, user, some cred⟩ = some hd ∧
+      unmarshal1 hd = some ⟨url, user, some cred⟩ := by
+  have := unmarshal1_marshal1 ⟨url :: more, user, some cred⟩ (by simp [IceIn.wf, hurl])
+  simpa [IceIn.back, hu] using this
+
+/-- the URL side condition is exact: a URL containing the separator is cut short -/
+theorem cutS_infix (sep s : Bytes) (h : hasInfix sep s = true) (t : Bytes) :
+    ∃ a b, cutS sep (s ++ t) = some (a, b) ∧ a.length + sep.length ≤ s.length := by
+  induction s with
+  | nil =>
+    simp only [hasInfix, List.isEmpty_iff] at h
+    subst h
+    cases t with
+    | nil => exact ⟨[], [], by simp [cutS], by simp⟩
+    | cons c t => exact ⟨[], c :: t, by simp [cutS], by simp⟩
+  | cons c s ih =>
+    simp only [hasInfix, Bool.or_eq_true] at h
+    by_cases hp : sep.isPrefixOf (c :: s) = true
+    · have hp' : sep.isPrefixOf (c :: s ++ t) = true := by
+        rw [List.isPrefixOf_iff_prefix] at hp ⊢
+        exact hp.trans (List.prefix_append _ _)
+      have hl := (List.isPrefixOf_iff_prefix.mp hp).length_le
+      simp only [List.cons_append] at hp'
+      exact ⟨[], (c :: (s ++ t)).drop sep.length,
+        by simp only [List.cons_append, cutS, hp', if_true], by simpa using hl⟩
+    · rcases h with h | h
+      · exact absurd h hp
+      · obtain ⟨a, b, h1, h2⟩ := ih h
+        by_cases hp' : sep.isPrefixOf (c :: (s ++ t)) = true
+        · have hl := (List.isPrefixOf_iff_prefix.mp hp').length_le
+          exact ⟨[], (c :: (s ++ t)).drop sep.length,
+            by simp only [List.cons_append, cutS, hp', if_true], by
+            simp only [List.length_nil, List.length_cons]; omega⟩
+        · have hp'' : sep.isPrefixOf (c :: (s ++ t)) = false := Bool.eq_false_iff.mpr hp'
+          exact ⟨c :: a, b, by simp [cutS, hp'', h1], by
+            simp only [List.length_cons]; omega⟩
+
+/-- where Go panics, the model says so: no URL, or a username with a non-string credential -/
+theorem marshal1_panics (s : IceIn) :
+    marshal1 s = none ↔ s.urls = [] ∨ (s.user ≠ [] ∧ s.cred = none) := by
+  obtain ⟨urls, user, cred⟩ := s
+  cases urls with
+  | nil => simp [marshal1]
+  | cons u us =>
+    by_cases hu : user = []
+    · simp [marshal1, hu]
+    · cases cred <;> simp [marshal1, hu]
+
+-- tests: hostile credentials made of quotes and backslashes
+example : (marshal1 ⟨[asc ['s']], asc ['"','\\'], some (asc ['\\','\\','"'])⟩).bind unmarshal1 =
+    some ⟨asc ['s'], asc ['"','\\'], some (asc ['\\','\\','"'])⟩ := by decide
+-- empty username: credentials are not written
+example : (marshal1 ⟨[asc ['s']], [], some (asc ['x'])⟩).bind unmarshal1 = some ⟨asc ['s'], [], none⟩ := by
+  decide
+example : (IceIn.mk [asc ['s','t','u','n',':','h']] (asc ['u']) (some [])).wf = true := by decide
+
+/-! ### HTTP `Credentials` -/
+
+theorem splitB_length (sep : UInt8) (s : Bytes) : (splitB sep s).length = countB sep s + 1 := by
+  induction s with
+  | nil => simp [splitB, countB]
+  | cons c s ih =>
+    unfold splitB
+    by_cases h : c = sep
+    · subst h; simp [ih, countB]
+    · have hc : countB sep (c :: s) = countB sep s := by
+        simp [countB, List.count_cons, h]
+      rw [if_neg h, hc, ← ih]
+      cases hs : splitB sep s with
+      | nil => exact absurd hs (splitB_ne_nil sep s)
+      | cons a b => simp [consHead]
+
+theorem firstBearer_skip (pre post : List Bytes) (p : Bytes)
+    (h : ∀ x ∈ pre, kBearer.isPrefixOf x = false) :
+    firstBearer (pre ++ (kBearer ++ p) :: post) = some p := by
+  induction pre with
+  | nil =>
+    have hp : kBearer.isPrefixOf (kBearer ++ p) = true := by
+      rw [List.isPrefixOf_iff_prefix]; exact List.prefix_append _ _
+    have hd : (kBearer ++ p).drop 7 = p := List.drop_left' (by decide)
+    simp [firstBearer, hp, hd]
+  | cons x pre ih =>
+    have hx := h x List.mem_cons_self
+    simp only [List.cons_append, firstBearer, hx, Bool.false_eq_true, if_false]
+    exact ih (fun y hy => h y (List.mem_cons_of_mem _ hy))
+
+/-- **`Bearer user:pass`**: the first header value starting with `Bearer ` decides; a payload
+`user:pass` with `:`-free user and password yields exactly these (whatever the other headers and the
+Basic decoding say). -/
+theorem bearer_userpass (pre post : List Bytes) (u w : Bytes) (b64 : Option Bytes)
+    (h : ∀ x ∈ pre, kBearer.isPrefixOf x = false)
+    (hu : noByte 58 u = true) (hw : noByte 58 w = true) :
+    credentials (pre ++ (kBearer ++ (u ++ 58 :: w)) :: post) b64 = { user := u, pass := w } := by
+  simp only [credentials, firstBearer_skip pre post _ h, fromBearer, splitB_append 58 u w hu,
+    splitB_noSep 58 w hw]
+
+theorem fromBearer_token (p : Bytes) (h : countB 58 p ≠ 1) : fromBearer p = { token := p } := by
+  have hl : (splitB 58 p).length ≠ 2 := by rw [splitB_length]; omega
+  unfold fromBearer
+  split
+  · rename_i u w heq; rw [heq] at hl; simp at hl
+  · rfl
+
+/-- **bearer token**: a payload that does not contain exactly one `:` is the token, byte for byte
+(JWTs contain none; `a:b:c` or the empty payload are tokens too) -/
+theorem bearer_token (pre post : List Bytes) (p : Bytes) (b64 : Option Bytes)
+    (h : ∀ x ∈ pre, kBearer.isPrefixOf x = false) (hp : countB 58 p ≠ 1) :
+    credentials (pre ++ (kBearer ++ p) :: post) b64 = { token := p } := by
+  simp only [credentials, firstBearer_skip pre post _ h, fromBearer_token p hp]
+
+/-- the two Bearer cases are exhaustive: exactly one `:` means `user:pass` with `:`-free parts -/
+theorem count_one_decomp (p : Bytes) (h : countB 58 p = 1) :
+    ∃ u w, p = u ++ 58 :: w ∧ noByte 58 u = true ∧ noByte 58 w = true := by
+  induction p with
+  | nil => simp [countB] at h
+  | cons c p ih =>
+    by_cases hc : c = 58
+    · subst hc
+      refine ⟨[], p, rfl, noByte_nil _, ?_⟩
+      have : countB 58 p = 0 := by simpa [countB] using h
+      simpa [noByte, countB, List.count_eq_zero] using this
+    · have : countB 58 p = 1 := by simpa [countB, List.count_cons, hc] using h
+      obtain ⟨u, w, h1, h2, h3⟩ := ih this
+      exact ⟨c :: u, w, by simp [h1], (noByte_cons _ _ _).mpr ⟨hc, h2⟩, h3⟩
+
+/-- **which header wins**: as soon as some value starts with `Bearer `, the first such value alone
+determines the result — a Basic header, even an earlier one, is not consulted -/
+theorem bearer_wins (hdrs : List Bytes) (p : Bytes) (b64 : Option Bytes)
+    (h : firstBearer hdrs = some p) : credentials hdrs b64 = fromBearer p := by
+  simp [credentials, h]
+
+theorem firstBearer_none (hdrs : List Bytes) (h : ∀ x ∈ hdrs, kBearer.isPrefixOf x = false) :
+    firstBearer hdrs = none := by
+  induction hdrs with
+  | nil => rfl
+  | cons x rest ih =>
+    simp only [firstBearer, h x List.mem_cons_self, Bool.false_eq_true, if_false]
+    exact ih (fun y hy => h y (List.mem_cons_of_mem _ hy))
+
+/-- **Basic**: without any `Bearer ` value, the FIRST header value is decoded: `Basic ` in any letter
+case, base64 (oracle) of `user:pass`; the user is everything before the first `:`, the password
+everything after it (so a `:`-free user and ANY password come back exactly). -/
+theorem basic_roundtrip (pfx enc : Bytes) (rest : List Bytes) (u w : Bytes)
+    (hpfx : pfx.map lowerB = kBasicLower)
+    (hnb : ∀ x ∈ (pfx ++ enc) :: rest, kBearer.isPrefixOf x = false)
+    (hu : noByte 58 u = true) :
+    credentials ((pfx ++ enc) :: rest) (some (u ++ 58 :: w)) = { user := u, pass := w } := by
+  have hlen : pfx.length = 6 := by
+    have := congrArg List.length hpfx
+    simpa [kBasicLower] using this
+  have hb : hasBasicPrefix (pfx ++ enc) = true := by
+    simp only [hasBasicPrefix, Bool.and_eq_true, decide_eq_true_eq, List.length_append,
+      beq_iff_eq]
+    refine ⟨by omega, ?_⟩
+    rw [List.take_left' hlen]; exact hpfx
+  simp only [credentials, firstBearer_none _ hnb, basicAuth, hb, if_true, cutB_append 58 u w hu]
+
+/-- a Basic header that is not the first value, an undecodable one, or one without `:` yields nothing -/
+theorem basic_nothing (h : Bytes) (rest : List Bytes) (b64 : Option Bytes)
+    (hnb : ∀ x ∈ h :: rest, kBearer.isPrefixOf x = false)
+    (hno : hasBasicPrefix h = false ∨ b64 = none ∨ ∃ d, b64 = some d ∧ noByte 58 d = true) :
+    credentials (h :: rest) b64 = {} := by
+  simp only [credentials, firstBearer_none _ hnb, basicAuth]
+  rcases hno with h1 | h1 | ⟨d, h1, h2⟩
+  · simp [h1]
+  · subst h1; split <;> rfl
+  · subst h1; simp only [cutB_none 58 d h2]; split <;> rfl
+
+/-- no `Authorization` header: empty credentials -/
+theorem no_header (b64 : Option Bytes) : credentials [] b64 = {} := rfl
+
+/-! ### RTSP `Credentials` -/
+
+/-- only a header gortsplib parsed contributes; the password only with the Basic method -/
+theorem rtsp_fields (a : RtspAuth) :
+    rtspCredentials a =
+      if a.ok then { user := a.user, pass := if a.basic then a.basicPass else [] } else {} := rfl
+
+theorem rtsp_no_token (a : RtspAuth) : (rtspCredentials a).token = [] := by
+  unfold rtspCredentials; split <;> rfl
+
+-- tests
+example : credentials [asc ['B','e','a','r','e','r',' ','u',':','p']] none = { user := asc ['u'], pass := asc ['p'] } := by
+  decide
+example : credentials [asc ['B','e','a','r','e','r',' ','a',':','b',':','c']] none = { token := asc ['a',':','b',':','c'] } := by
+  decide
+example : credentials [asc ['B','A','S','I','C',' ','x'], asc ['B','e','a','r','e','r',' ']] (some (asc ['u',':','p'])) = { token := [] } := by
+  decide
+example : credentials [asc ['b','a','s','i','c',' ','x']] (some (asc ['u',':','p',':','q'])) = { user := asc ['u'], pass := asc ['p',':','q'] } := by
+  decide
 
 end MtxVerif.C34
